@@ -49,7 +49,7 @@ type c15Inv struct {
 }
 
 func runC15(c *Ctx) {
-	events := c.Pick(700, 20000)
+	events := c.Pick(4000, 40000)
 	if c.Arg("heavy", "") == "1" {
 		events = 70000
 	}
